@@ -96,6 +96,40 @@ pub struct CaseImpl<P> {
     pub ports: P,
 }
 
+/// Highest number of polls of a test body seen so far (evidence for the margin of the step cap).
+pub static MAX_POLLS: std::sync::atomic::AtomicUsize = std::sync::atomic::AtomicUsize::new(0);
+
+/// Step cap: the scheduler polls the test body between every two scheduler steps, so the number of
+/// polls bounds the number of steps. A sound simulation of these flows needs a few steps per input
+/// item (each tick / observation releases something new, and there is only so much to release);
+/// `cap` is far above that. Exceeding it means ticks or observations keep being scheduled without
+/// releasing anything new (the run would never quiesce).
+pub fn step_cap(inp: &Inp) -> usize {
+    200 * (inp.a.len() + inp.b.len() + 2)
+}
+
+struct PollCap<F> {
+    inner: std::pin::Pin<Box<F>>,
+    polls: usize,
+    cap: usize,
+}
+
+impl<F: Future> Future for PollCap<F> {
+    type Output = F::Output;
+    fn poll(mut self: std::pin::Pin<&mut Self>, cx: &mut std::task::Context<'_>) -> std::task::Poll<F::Output> {
+        self.polls += 1;
+        MAX_POLLS.fetch_max(self.polls, std::sync::atomic::Ordering::Relaxed);
+        if self.polls > self.cap {
+            panic!("step cap: the simulation did not quiesce within {} scheduler steps", self.cap);
+        }
+        self.inner.as_mut().poll(cx)
+    }
+}
+
+fn capped<F: Future>(f: F, inp: &Inp) -> PollCap<F> {
+    PollCap { inner: Box::pin(f), polls: 0, cap: step_cap(inp) }
+}
+
 fn triggers(inp: &Inp, t: &Trace) {
     if let Some(k) = inp.assume_first_len_ne {
         hydro_lang::sim::continue_if!(t.first().map(|x| x.items.len()) != Some(k), "first emission has {} items", k);
@@ -120,7 +154,7 @@ impl<P: Body + RefUnwindSafe> Case for CaseImpl<P> {
         let r = vcommon::catch(|| {
             compiled.fuzz_repro(bytes.to_vec(), async |inst| {
                 inst.run_with_scheduler_and_logger(&mut log, async {
-                    let t = ports.body(inp).await;
+                    let t = capped(ports.body(inp), inp).await;
                     trace = Some(t.clone());
                     triggers(inp, &t);
                 })
@@ -142,7 +176,7 @@ impl<P: Body + RefUnwindSafe> Case for CaseImpl<P> {
         let traces_mut = &mut traces;
         let r = vcommon::catch(|| {
             compiled.exhaustive(async || {
-                let t = ports.body(inp).await;
+                let t = capped(ports.body(inp), inp).await;
                 traces_mut.push(t);
             })
         });
